@@ -54,11 +54,16 @@ def abs_tolerance_regime(case) -> bool:
     sa, sb, T = case["a"], case["b"], case["T"]
     ca, cb = lib.spec_curves(sa), lib.spec_curves(sb)
     exact = all(rg.curve_is_exact(c) and rg.curve_is_polygon(c) for c in ca + cb)
-    if exact or not (ca and cb):
+    if exact or not (ca or cb):
         return False
     fn = make_map(T, False)
     ta, tb = [rg.curve_map(c, fn) for c in ca], [rg.curve_map(c, fn) for c in cb]
-    if oc.classify_pair(ca, cb)[0] != "general":
+    # a curved segment shorter than 1e-2 after the map is degree-reduced by the
+    # absolute clean() tolerance whatever the other operand is
+    curved_short = [rg.dist(sg[0], sg[-1]) for c in ta + tb for sg in c if len(sg) > 2]
+    if curved_short and min(curved_short) < 1e-2:
+        return True
+    if not (ca and cb) or oc.classify_pair(ca, cb)[0] != "general":
         return False
     if oc.min_segment_length(ta + tb) < 1e-2:
         return True
@@ -139,7 +144,8 @@ def judge(ctx, case):
     cancel = 1e-13 * (shift + ext) * ext if not exact else 1e-15 * ext
     # vertices closer than the library's absolute point tolerance (1e-9) are
     # identified when pieces are chained: the boundary may move by that much
-    cancel += 4e-9 * ext
+    # (and a rational coordinate of size ~1e6 capped at denominator 1e9 can move by up to ~1e-9)
+    cancel += 2e-8 * ext
     if abs(aT - a0 * s * s) > (1e-9 if not curved else 1e-5) * max(scale_area, abs(aT)) + cancel + 1e-300:
         ctx.violation("similarity", "area-does-not-scale", case, "area %r without T, %r with T (factor^2 = %r)" % (a0, aT, s * s), where)
     # point-wise: T(p) in T(A) op T(B)  iff  p in model
